@@ -743,6 +743,21 @@ class JSExec(GoExec, SpecMixin, CallsMixin):
             if c['object']['type'] == 'Identifier' and c['object']['name'] == 'String' and mname == 'fromCharCode':
                 vals = [self.ev(st, a) for a in args]
                 return self.from_char_codes(st, vals)
+            if mname == 'apply' and c['object']['type'] == 'MemberExpression' and not c['object']['computed'] \
+               and c['object']['object'].get('name') == 'String' and c['object']['property'].get('name') == 'fromCharCode':
+                # String.fromCharCode.apply(undefined, typedArray): the string whose code units are the elements (ECMA-262
+                # 22.1.2.1 with Function.prototype.apply spreading an array-like); elements here are bytes
+                src = self.ev(st, args[1])
+                if not isinstance(src, JSArr):
+                    raise Unsupported('fromCharCode.apply on a non-array @%s' % line)
+                self.assumed.add('String.fromCharCode.apply(undefined, bytes) builds the string of those code units (ECMA-262)')
+                h = self.heap(st)
+                sb = src.off if src.off is not None else z3.IntVal(0)
+                olda = z3.Select(h, src.ident)
+                na = fresh('fcc.arr', ArrII); k = fresh('k!fcc')
+                st.assume(z3.ForAll([k], z3.Implies(z3.And(0 <= k, k < src.length), z3.Select(na, k) == z3.Select(olda, sb + k)),
+                                    patterns=[z3.Select(na, k)]))
+                return StrV(na, z3.IntVal(0), src.length)
             obj = self.ev(st, c['object'])
             if isinstance(obj, JSObj) and obj.ctor == 'Type' and mname == 'zero':
                 return fresh('zero')           # the element type's zero value: opaque
